@@ -320,6 +320,29 @@ Definition l0_minus_ch (l : list N) (ch : N) : list N :=
   | z => takeN (Z.to_N z) l ++ dropN (Z.to_N z + 1) l
   end.
 
+(* the IgnoreCase forms of WithoutSuffix / WithoutPrefix *)
+Fixpoint strip_suffix_nc_fuel (fuel : nat) (l suf : list N) (max : N) : list N :=
+  match fuel with
+  | O => l
+  | S f => if (0 <? max) && ends_with_nocase l suf
+           then strip_suffix_nc_fuel f (l0_trunc_chars l (lenN suf)) suf (max - 1) else l
+  end.
+Definition l0_without_suffix_nc (l suf : list N) (max : N) : list N :=
+  match suf with [] => l | _ => strip_suffix_nc_fuel (S (length l)) l suf max end.
+Fixpoint strip_prefix_nc_fuel (fuel : nat) (l pre : list N) (max : N) : list N :=
+  match fuel with
+  | O => l
+  | S f => if (0 <? max) && starts_with_nocase l pre
+           then strip_prefix_nc_fuel f (dropN (lenN pre) l) pre (max - 1) else l
+  end.
+Definition l0_without_prefix_nc (l pre : list N) (max : N) : list N :=
+  match pre with [] => l | _ => strip_prefix_nc_fuel (S (length l)) l pre max end.
+Fixpoint strip_ch_prefix_nc (l : list N) (ch max : N) : list N :=
+  match l with
+  | [] => []
+  | x :: t => if (0 <? max) && ((x =? to_upper ch) || (x =? to_lower ch)) then strip_ch_prefix_nc t ch (max - 1) else l
+  end.
+
 Definition l0_padded (l : list N) (minLen : N) (right : bool) (ch : N) : list N :=
   if (lenN l <? minLen) && negb (ch =? 0)
   then (if right then l ++ repN ch (minLen - lenN l) else repN ch (minLen - lenN l) ++ l)
